@@ -45,6 +45,30 @@ def node_of(g, astnode):
     return ns[0]
 
 
+def record_ctor_func(ctx: Ctx, q, call):
+    """The callee expression if `call` constructs a record: TABLE[type](...) with TABLE a folded type->record-class table,
+    possibly through a local (`cls = TABLE[type]; cls(...)`), or a record class called by name."""
+    fi = ctx.fn(q)
+    rec_cls = set(record_kinds(ctx).values())
+    f = call.func
+    if isinstance(f, ast.Name) and f.id in local_names(fi.node):
+        d = single_assignment(fi.node, f.id)
+        if d is not None:
+            f = d
+    if isinstance(f, ast.Subscript):
+        try:
+            t = ctx.eval_in(q, f.value)
+        except AnalysisError:
+            t = None
+        if isinstance(t, dict) and t and all(isinstance(v, ClassRef) and v.qual in rec_cls for v in t.values()):
+            return f
+        return None
+    r = ctx.p.resolve_dotted(fi.module, f) if dotted(f) else None
+    if r and r[0] == "class" and r[1] in rec_cls:
+        return f
+    return None
+
+
 # ===================================================================================== C18
 def bundle_slots(ctx: Ctx):
     """(record-list field, identifier-index field) of ProvBundle, discovered from __init__."""
@@ -163,16 +187,7 @@ def c18_r3(ctx: Ctx, rule):
         if not (fi.cls and ctx.p.is_subclass(fi.cls, BUNDLE)):
             continue
         for c in calls_in(fi.node):
-            is_ctor = False
-            if isinstance(c.func, ast.Subscript):
-                try:
-                    t = ctx.eval_in(q, c.func.value)
-                except AnalysisError:
-                    t = None
-                is_ctor = isinstance(t, dict) and t and all(isinstance(v, ClassRef) and v.qual in rec_cls for v in t.values())
-            else:
-                r = ctx.p.resolve_dotted(fi.module, c.func)
-                is_ctor = bool(r and r[0] == "class" and r[1] in rec_cls)
+            is_ctor = record_ctor_func(ctx, q, c) is not None
             if not is_ctor or not c.args or norm(c.args[0]) != "self":
                 continue
             g = get_cfg(ctx, q)
@@ -305,8 +320,11 @@ def find_normaliser(ctx: Ctx):
     cands = []
     for s in mutation_sites(ctx, {mm}):
         if s.how.startswith("call:add") and s.depth == 1 and s.func.startswith(RECORD + "."):
-            calls = {call_name(c) for c in calls_in(ctx.fn(s.func).node)}
-            if {"valid_qualified_name", "_auto_literal_conversion"} <= calls:
+            calls = set()
+            for q2 in ctx.helper_closure(s.func, depth=2):
+                if q2.startswith(RECORD + ".") or q2.startswith(M + "."):
+                    calls |= {call_name(c) for c in calls_in(ctx.fn(q2).node)}
+            if "valid_qualified_name" in calls and any("literal" in c.lower() or c == "parse_xsd_types" for c in calls):
                 cands.append(s)
     if len({s.func for s in cands}) != 1:
         raise AnalysisError("cannot identify the attribute normaliser (candidates: %s)" % sorted({s.func for s in cands}))
@@ -382,6 +400,27 @@ def c05_r2(ctx: Ctx, rule):
         if isinstance(node, ast.If) and any(isinstance(x, ast.Raise) for x in ast.walk(node)) and any(
                 isinstance(x, ast.Subscript) and isinstance(x.value, ast.Attribute) and x.value.attr == mm for x in ast.walk(node.test)):
             guards.append((s, text, node))
+    if len(guards) == 0:
+        # the guard as a helper of its own: a function in the closure that tests membership in a set of formal attributes
+        # together with the live multimap entry, and raises
+        for q2 in ctx.helper_closure(norm_q):
+            if q2 == norm_q:
+                continue
+            f2 = ctx.fn(q2)
+            if not any(isinstance(x, ast.Raise) for x in walk_function(f2.node)):
+                continue
+            for n in walk_function(f2.node):
+                if isinstance(n, ast.If) and any(isinstance(x, ast.Subscript) and isinstance(x.value, ast.Attribute) and x.value.attr == mm for x in ast.walk(n.test)):
+                    for c in ast.walk(n.test):
+                        if isinstance(c, ast.Compare) and isinstance(c.ops[0], ast.In):
+                            try:
+                                sv = ctx.eval_in(q2, c.comparators[0])
+                            except AnalysisError:
+                                continue
+                            if isinstance(sv, (set, frozenset)) and len(set(sv) & formal) >= 3:
+                                guards.append((set(sv), norm(c.comparators[0]), n))
+            if guards:
+                break
     if len(guards) != 1:
         # a guard that raises but no longer consults the live multimap?
         stale = []
@@ -401,6 +440,20 @@ def c05_r2(ctx: Ctx, rule):
             return res
         raise AnalysisError("cannot identify the single-value guard in %s (found %d)" % (short(norm_q), len(guards)))
     gset, gtext, gnode = guards[0]
+    guard_fn = next((q2 for q2 in ctx.helper_closure(norm_q) if any(x is gnode for x in ast.walk(ctx.fn(q2).node))), norm_q)
+    if guard_fn != norm_q:
+        for a in sorted(formal, key=lambda x: x.local):
+            res.ob("formal %s covered by guard set %s (guard in helper %s): %s" % (a.s, gtext, short(guard_fn), a in gset))
+            if a not in gset:
+                res.fail(rule.id, "guard-misses::%s" % a.local, ctx.loc(guard_fn, gnode), "the single-value guard tests membership in %s, which does not contain %s" % (gtext, a.s),
+                         "add_attributes({%s: x}) twice with different x leaves two values" % a.s)
+        raises_h = any(isinstance(x, ast.Raise) for x in ast.walk(ctx.fn(guard_fn).node))
+        used = any(call_name(c) == guard_fn.rsplit(".", 1)[1] for c in calls_in(fi.node))
+        res.ob("guard helper raises on a differing value: %s; the normaliser consults it before storing: %s" % (raises_h, used))
+        if not raises_h or not used:
+            res.fail(rule.id, "guard-does-not-raise", ctx.loc(guard_fn, gnode), "the single-value guard helper no longer raises / is no longer consulted")
+        res.notes.append("single-value guard lives in helper %s: the fall-through-to-store path check is not applied across the call" % short(guard_fn))
+        return res
     for a in sorted(formal, key=lambda x: x.local):
         res.ob("formal %s covered by guard set %s: %s" % (a.s, gtext, a in gset))
         if a not in gset:
@@ -486,6 +539,12 @@ def c05_r3(ctx: Ctx, rule):
         cur = cur.orelse[0]
     for b in (cur.orelse if isinstance(cur, ast.If) else []):
         else_calls |= {call_name(c) for c in ast.walk(b) if isinstance(c, ast.Call)}
+    if "_auto_literal_conversion" not in else_calls:
+        # early-return form: `if refs: return ..; if times: return ..; return self._auto_literal_conversion(v)`
+        host = next((q2 for q2 in ctx.helper_closure(norm_q) if any(x is ref_arm[2] for x in ast.walk(ctx.fn(q2).node))), norm_q)
+        tail = [r for r in walk_function(ctx.fn(host).node) if isinstance(r, ast.Return) and r.value is not None and not any(x is r for arm_ in (ref_arm[2], time_arm[2]) for x in ast.walk(arm_))]
+        for r in tail:
+            else_calls |= {call_name(c) for c in ast.walk(r) if isinstance(c, ast.Call)}
     res.ob("remaining attributes go through _auto_literal_conversion: %s" % ("_auto_literal_conversion" in else_calls))
     if "_auto_literal_conversion" not in else_calls:
         res.fail(rule.id, "partition::others-not-normalised", ctx.loc(norm_q, cur), "non-formal values are stored without _auto_literal_conversion",
